@@ -18,7 +18,22 @@ HasArrayType(t, names, seen) ==
     [] t.k = "record" -> \E i \in 1..Len(t.fields) : HasArrayType(t.fields[i].type, names, seen)
     [] t.k = "ref" -> IF t.name \in seen THEN FALSE ELSE HasArrayType(names[t.name], names, seen \cup {t.name})
     [] OTHER -> FALSE
-Ambiguous(t, v, names) == HasBytesVal(v) /\ HasArrayType(t, names, {})
+\* a tuple that is not a (name, value) pair: at a union position the implementation tries to unpack it as a hint (Unspecified, D.2)
+RECURSIVE HasOddTuple(_)
+HasOddTuple(v) == CASE v.p = "tuple" -> Len(v.it) # 2 \/ v.it[1].p # "str" \/ HasOddTuple(v.it[2])
+                    [] v.p = "list" -> \E i \in 1..Len(v.it) : HasOddTuple(v.it[i])
+                    [] v.p = "dict" -> \E i \in 1..Len(v.vs) : HasOddTuple(v.vs[i])
+                    [] OTHER -> FALSE
+RECURSIVE HasUnionType(_, _, _)
+HasUnionType(t, names, seen) ==
+  CASE t.k = "union" -> TRUE
+    [] t.k = "array" -> HasUnionType(t.items, names, seen)
+    [] t.k = "map" -> HasUnionType(t.values, names, seen)
+    [] t.k = "record" -> \E i \in 1..Len(t.fields) : HasUnionType(t.fields[i].type, names, seen)
+    [] t.k = "ref" -> IF t.name \in seen THEN FALSE ELSE HasUnionType(names[t.name], names, seen \cup {t.name})
+    [] OTHER -> FALSE
+Ambiguous(t, v, names) == \/ (HasBytesVal(v) /\ HasArrayType(t, names, {}))
+                          \/ (HasOddTuple(v) /\ HasUnionType(t, names, {}))
 
 \* op = "validate": c.schema, c.datum, c.strict, c.tuples,
 \*   c.quiet [ok, v (bool)] | [ok |-> FALSE, exc]     validate(..., raise_errors=False)
